@@ -113,6 +113,50 @@ class Doc:
         """Abstract shape used for the distinctness measure: headers + per-row (kind, cell kinds)."""
         return [self.headers, [(r.kind, [c.kind for c in r.cells]) for r in self.rows]]
 
+    def consistent(self):
+        """Does the abstract annotation (which spine each cell belongs to) agree with the text's own spine operators?
+        Minimisers drop rows; a candidate whose annotation no longer matches its text is not a document of this generator."""
+        cols = None
+        for r in self.rows:
+            if r.kind == 'global':
+                if len(r.cells) != 1:
+                    return False
+                continue
+            if r.kind == 'header':
+                if cols is not None or [c.text for c in r.cells] != list(self.headers):
+                    return False
+                cols = list(range(len(self.headers)))
+                continue
+            if cols is None or len(r.cells) != len(cols) or [c.spine for c in r.cells] != cols:
+                return False
+            if r.kind in ('ops', 'term'):
+                new = []
+                i = 0
+                while i < len(cols):
+                    t = r.cells[i].text
+                    if t == '*^':
+                        new += [cols[i], cols[i]]
+                    elif t == '*-':
+                        pass
+                    elif t == '*v':
+                        j = i
+                        while j + 1 < len(cols) and r.cells[j + 1].text == '*v' and cols[j + 1] == cols[i]:
+                            j += 1
+                        if j == i:
+                            return False        # a lone *v joins nothing
+                        new.append(cols[i])
+                        i = j
+                    elif t == '*':
+                        new.append(cols[i])
+                    else:
+                        return False
+                    i += 1
+                cols = new
+            else:
+                if any(c.text in ('*^', '*v', '*-', '*+', '*x') for c in r.cells):
+                    return False
+        return cols is not None
+
     def header_of(self, cell):
         return self.headers[cell.spine] if cell.spine is not None and cell.spine >= 0 else None
 
